@@ -601,11 +601,21 @@ func (c *Client) negotiateVersion(ctx context.Context) error {
 	if !ok || pl == nil {
 		return errors.New("Protocol version negotiation failed. Unexpected response payload")
 	}
-	serverVersions := pl.ProtocolVersion
-	if len(serverVersions) == 0 {
+	// Adopt the highest version supported by both sides, whatever the order of the server's list.
+	var best *kmip.ProtocolVersion
+	for i := range pl.ProtocolVersion {
+		v := pl.ProtocolVersion[i]
+		if !slices.Contains(c.supportedVersions, v) {
+			continue
+		}
+		if best == nil || ttlv.CompareVersions(v, *best) > 0 {
+			best = &v
+		}
+	}
+	if best == nil {
 		return errors.New("Protocol version negotiation failed. No common version found")
 	}
-	c.version = &serverVersions[0]
+	c.version = best
 	return nil
 }
 
